@@ -56,7 +56,7 @@ def make_cases(seed, tier):
 def do_chunk(chunk):
     acc = common.Acc()
     w = rt.vw(FL)
-    setup = [rt.obj_line(0, align=2, fill="r", seed=4), "ledger 1"]
+    setup = [rt.obj_line(0, align=2, fill="r", seed=4), "ledger 1", "preerrno 2"]
     lines = []
     for c in chunk:
         a = (c["prefix"], c["count"], c["rb"], c["nr"])
